@@ -87,10 +87,13 @@ async def _function_test_between(ftest_spec):
     from koreo.function_test.prepare import prepare_function_test
     from koreo.function_test.run import run_function_test
 
-    prepared = await prepare_function_test("ft", copy.deepcopy(ftest_spec))
-    if not isinstance(prepared, tuple):
-        return {"prepared": False, "why": ku.outcome_obs(prepared)}
-    result = await run_function_test("ft", prepared[0])
+    try:
+        prepared = await prepare_function_test("ft", copy.deepcopy(ftest_spec))
+        if not isinstance(prepared, tuple):
+            return {"prepared": False, "why": ku.outcome_obs(prepared)}
+        result = await run_function_test("ft", prepared[0])
+    except Exception as e:  # an exception escaping koreo's test runner is an observation, not a harness error
+        return {"prepared": None, "raised": f"{type(e).__name__}: {e}"}
     return {"prepared": True, "cases": [(t.label, bool(t.test_pass)) for t in (result.test_results or [])]}
 
 
